@@ -242,7 +242,7 @@ class C11(Check):
             elif exp is not None and (rt.pattern != exp or rt is not r.routes.get(exp)):
                 bad.append(('name-wrong-route', f'router[{name!r}] is {rt.pattern!r} (stale object: '
                                                 f'{rt is not r.routes.get(exp)}), expected {exp!r}'))
-        bad += self._check_listing(run, spec, paths)
+        bad += self._check_listing(run, spec, paths, rules)
         try:
             fresh = spec.rebuild()
         except core.Hang:
@@ -313,7 +313,7 @@ class C11(Check):
                                                      f'{sb[3]!r}, expected {exp!r}'))
         return bad
 
-    def _check_listing(self, run, spec, paths):
+    def _check_listing(self, run, spec, paths, rules=()):
         """enumeration and key forms against the dict spec (nothing of the model is used): the
         enumerated patterns are the survivors, each exactly once, with the survivor's own Route
         object; `startswith` selects by pattern prefix; `yield_hooks` adds exactly the hook-only
@@ -350,9 +350,12 @@ class C11(Check):
         if got_hooks != exp_hooks:
             bad.append(('listing-hooks', f'hook-only nodes listed {got_hooks!r}, surviving hook-only patterns {exp_hooks!r}'))
         seen = set()
+        cands = []
         for pat in pats[:4] + ['a', 'zz']:
             for cut in sorted({0, len(pat) // 2, len(pat)}):
-                sw = pat[:cut]
+                cands += [pat[:cut], pat[:cut] + 'q', pat[:max(cut - 1, 0)] + 'q' + pat[cut:cut + 1]]
+        for sw in cands:
+            if True:
                 if not sw or sw in seen:
                     continue
                 seen.add(sw)
@@ -379,6 +382,28 @@ class C11(Check):
                 if got is not rt:
                     bad.append(('getitem-object', f'router[{what}] for the route resolve({path!r}) dispatches on '
                                                   f'({rt.rule!r}) gives {getattr(got, "rule", got)!r}'))
+        # lookups by rule: the survivor registered under exactly this pattern and filters, else None
+        for rule in rules:
+            try:
+                pat, flt = spec.parse(rule)
+            except E.Outside:
+                continue
+            except Exception:
+                continue
+            if pat.startswith('/') or (spec.tainted and pat not in spec.routes):
+                continue
+            same = pat in spec.routes and len(flt) == len(spec.filters[pat]) and all(
+                a is b for a, b in zip(flt, spec.filters[pat]))
+            exp = r.routes.get(pat) if same else None
+            for what, mk in (('{rule}', lambda: {rule}), ('RouteKey(rule)', lambda: RouteKey(rule))):
+                try:
+                    got = r[mk()]
+                except Exception as e:
+                    got = type(e).__name__
+                if got is not exp:
+                    bad.append(('getitem-by-rule', f'router[{what}] with rule {rule!r} gives '
+                                                   f'{getattr(got, "rule", got)!r}, the survivors say '
+                                                   f'{getattr(exp, "rule", exp)!r}'))
         for name, pat in spec.names.items():
             try:
                 got = r[{'pattern': pat}]
